@@ -112,6 +112,32 @@ fn main() {
                 writeln!(st, "tag {} {}", k, v).unwrap();
             }
         }
+        "runfile" => {
+            // wph runfile <family> <ops file> <outdir>: run recorded op lines (corpus)
+            let fam = fams.iter().find(|f| f.name() == args[2]).expect("unknown family");
+            let dir = &args[4];
+            std::fs::create_dir_all(dir).unwrap();
+            let mk = |ext: &str| std::io::BufWriter::new(std::fs::File::create(format!("{}/{}.{}", dir, fam.name(), ext)).unwrap());
+            let (mut ops, mut imp, mut viol) = (mk("ops"), mk("impl"), mk("viol"));
+            let mut ctx = Ctx::new();
+            let text = std::fs::read_to_string(&args[3]).unwrap();
+            let mut count = 0u64;
+            for (idx, line) in text.lines().filter(|l| !l.trim().is_empty() && !l.starts_with('#')).enumerate() {
+                let out = fam.run(line, &mut ctx);
+                writeln!(ops, "{}", line).unwrap();
+                writeln!(imp, "{}", out).unwrap();
+                for v in ctx.viols.drain(..) {
+                    writeln!(viol, "{}\t{}\t{}", idx, line, v).unwrap();
+                }
+                count += 1;
+            }
+            let mut st = mk("stats");
+            writeln!(st, "count {}", count).unwrap();
+            writeln!(st, "distinct_nontrivial {}", ctx.nontrivial.len()).unwrap();
+            for (k, v) in &ctx.stats {
+                writeln!(st, "tag {} {}", k, v).unwrap();
+            }
+        }
         "replay" => {
             let fam = fams.iter().find(|f| f.name() == args[2]).expect("unknown family");
             let line = args[3..].join(" ");
